@@ -223,6 +223,8 @@ def run(ctx):
         bfi = p.lookup_method(P, "_build_propagation_intermediates")
         if bfi is not None and not P.split(".")[-1].startswith("propagator_cpmc"):
             from ..symex import Evaluator as _Ev, sym as _sym, subterms as _sub
+            from ..rules import common as _common
+            _common.per_spin_one_body(ctx, P, bfi)
             _ev = _Ev(p)
             _rb = _ev.result(_ev.eval_function(bfi, self_class=P))
             if _rb is not None:
